@@ -10,7 +10,8 @@
 //!   {kind: "batch", ps: [[public, maxAge]..], grouping: "flat"|"left"|"right"}
 //!        BatchResponse::cache_control() over responses carrying the given policies (the real
 //!        CacheControl::merge on arbitrary operands); "left"/"right" feed the merge of two back in.
-//! At start-up the JSON mirror is compared with the live registry of every profile (types, fields, hints).
+//! At start-up the structure of the JSON mirror is compared with the live registry of every profile (types, fields);
+//! hints that the registry holds differently from the annotations are reported on stdout (`hint_notes`), not fatal.
 use async_graphql::extensions::{Extension, ExtensionContext, ExtensionFactory, NextParseQuery};
 use async_graphql::parser::types::ExecutableDocument;
 use async_graphql::registry::{MetaType, Registry};
@@ -27,11 +28,15 @@ fn leaf_int(ctx: &Context<'_>, id: &str, field: &str) -> i32 {
 }
 
 /// The A/B/C family with one set of hints.  Parameters in the order of SLOTS in checks/C20_genfam.py:
-/// Query, Query.a, .b, .c, .node, .nodes, .u, .us, .n, A, A.tag, A.x, A.peer, A.buddy, B, B.tag, B.z, C, C.tag, C.v
+/// Query, Query.a, .b, .c, .node, .nodes, .u, .us, .n, A, A.tag, A.x, A.peer, A.buddy, B, B.tag, B.z, C, C.tag, C.v,
+/// then the MergedObject members: QueryExtra, .m12, .m21, .extra, MP, MP.mp1, MP.mp2, MQ, MQ.mq1, and the member order of
+/// the Query root.  M12 = MergedObject(MP, MQ), M21 = MergedObject(MQ, MP), Query = MergedObject(<root order>).
 macro_rules! family {
     ($m:ident; [$($q:tt)*]; [$($qa:tt)*]; [$($qb:tt)*]; [$($qc:tt)*]; [$($qnode:tt)*]; [$($qnodes:tt)*]; [$($qu:tt)*]; [$($qus:tt)*]; [$($qn:tt)*];
      [$($a:tt)*]; [$($atag:tt)*]; [$($ax:tt)*]; [$($apeer:tt)*]; [$($abuddy:tt)*];
-     [$($b:tt)*]; [$($btag:tt)*]; [$($bz:tt)*]; [$($c:tt)*]; [$($ctag:tt)*]; [$($cv:tt)*]) => {
+     [$($b:tt)*]; [$($btag:tt)*]; [$($bz:tt)*]; [$($c:tt)*]; [$($ctag:tt)*]; [$($cv:tt)*];
+     [$($qx:tt)*]; [$($qxm12:tt)*]; [$($qxm21:tt)*]; [$($qxextra:tt)*]; [$($mp:tt)*]; [$($mp1:tt)*]; [$($mp2:tt)*]; [$($mq:tt)*]; [$($mq1:tt)*];
+     [$r1:ident, $r2:ident]) => {
         pub mod $m {
             use super::*;
             #[derive(Clone)] pub struct A(pub String);
@@ -71,9 +76,35 @@ macro_rules! family {
                 #[graphql($($ctag)*)] async fn tag(&self, ctx: &Context<'_>) -> i32 { leaf_int(ctx, &self.0, "tag") }
                 #[graphql($($cv)*)] async fn v(&self, ctx: &Context<'_>) -> i32 { leaf_int(ctx, &self.0, "v") }
             }
-            pub struct Query;
+            pub struct MP(pub String);
+            #[Object($($mp)*)]
+            impl MP {
+                #[graphql($($mp1)*)] async fn mp1(&self, ctx: &Context<'_>) -> i32 { leaf_int(ctx, &self.0, "mp1") }
+                #[graphql($($mp2)*)] async fn mp2(&self, ctx: &Context<'_>) -> i32 { leaf_int(ctx, &self.0, "mp2") }
+            }
+            pub struct MQ(pub String);
+            #[Object($($mq)*)]
+            impl MQ {
+                #[graphql($($mq1)*)] async fn mq1(&self, ctx: &Context<'_>) -> i32 { leaf_int(ctx, &self.0, "mq1") }
+            }
+            #[derive(MergedObject)]
+            pub struct M12(MP, MQ);
+            #[derive(MergedObject)]
+            pub struct M21(MQ, MP);
+            #[derive(Default)]
+            pub struct QueryExtra;
+            #[Object($($qx)*)]
+            impl QueryExtra {
+                #[graphql($($qxm12)*)] async fn m12(&self, ctx: &Context<'_>) -> Option<M12> { id_of(&req_of(ctx).lookup("root", "m12"), "M12").map(|i| M12(MP(i.clone()), MQ(i))) }
+                #[graphql($($qxm21)*)] async fn m21(&self, ctx: &Context<'_>) -> Option<M21> { id_of(&req_of(ctx).lookup("root", "m21"), "M21").map(|i| M21(MQ(i.clone()), MP(i))) }
+                #[graphql($($qxextra)*)] async fn extra(&self, ctx: &Context<'_>) -> i32 { leaf_int(ctx, "root", "extra") }
+            }
+            #[derive(MergedObject, Default)]
+            pub struct Query($r1, $r2);
+            #[derive(Default)]
+            pub struct QueryCore;
             #[Object($($q)*)]
-            impl Query {
+            impl QueryCore {
                 #[graphql($($qa)*)] async fn a(&self, ctx: &Context<'_>) -> Option<A> { id_of(&req_of(ctx).lookup("root", "a"), "A").map(A) }
                 #[graphql($($qb)*)] async fn b(&self, ctx: &Context<'_>) -> Option<B> { id_of(&req_of(ctx).lookup("root", "b"), "B").map(B) }
                 #[graphql($($qc)*)] async fn c(&self, ctx: &Context<'_>) -> Option<C> { id_of(&req_of(ctx).lookup("root", "c"), "C").map(C) }
@@ -84,7 +115,7 @@ macro_rules! family {
                 #[graphql($($qn)*)] async fn n(&self, ctx: &Context<'_>) -> i32 { leaf_int(ctx, "root", "n") }
             }
             pub fn schema(cap: Arc<Captured>) -> Schema<Query, EmptyMutation, EmptySubscription> {
-                Schema::build(Query, EmptyMutation, EmptySubscription).extension(Dump(cap)).finish()
+                Schema::build(Query::default(), EmptyMutation, EmptySubscription).extension(Dump(cap)).finish()
             }
         }
     };
@@ -171,6 +202,23 @@ fn mirror_view(p: &J) -> J {
     json!({"query": p["query"], "types": types})
 }
 
+fn strip_hints(v: &J) -> J {
+    match v {
+        J::Object(o) => J::Object(o.iter().filter(|(k, _)| k.as_str() != "hint").map(|(k, x)| (k.clone(), strip_hints(x))).collect()),
+        J::Array(a) => J::Array(a.iter().map(strip_hints).collect()),
+        x => x.clone(),
+    }
+}
+fn hint_diffs(live: &J, want: &J, profile: &str, out: &mut Vec<J>) {
+    for (name, t) in want["types"].as_object().unwrap() {
+        let l = &live["types"][name];
+        if l["hint"] != t["hint"] { out.push(json!({"profile": profile, "at": name, "registry": l["hint"], "annotated": t["hint"]})); }
+        for (f, d) in t["fields"].as_object().unwrap() {
+            if l["fields"][f]["hint"] != d["hint"] { out.push(json!({"profile": profile, "at": format!("{name}.{f}"), "registry": l["fields"][f]["hint"], "annotated": d["hint"]})); }
+        }
+    }
+}
+
 type Exec = Box<dyn Fn(Request) -> Response>;
 fn policy(p: &J) -> CacheControl { CacheControl { public: p["public"].as_bool().unwrap_or(true), max_age: p["maxAge"].as_i64().unwrap_or(0) as i32 } }
 
@@ -180,6 +228,7 @@ fn main() {
     let cases = read_ndjson(&args[1]);
     let mirror: J = serde_json::from_str(&std::fs::read_to_string(&args[3]).unwrap_or_else(|e| tool_error(&format!("{}: {e}", args[3])))).unwrap_or_else(|e| tool_error(&format!("mirror: {e}")));
     let mut execs: std::collections::HashMap<String, Exec> = std::collections::HashMap::new();
+    let mut hint_notes: Vec<J> = Vec::new();
     macro_rules! reg { ($name:expr, $m:ident) => {{
         let cap = Arc::new(Captured::default());
         let s = $m::schema(cap.clone());
@@ -187,9 +236,13 @@ fn main() {
         if !r.errors.is_empty() { tool_error("probe query failed"); }
         let live = cap.registry.lock().unwrap().clone().unwrap_or_else(|| tool_error("the extension was not called"));
         let want = mirror_view(&mirror["profiles"][$name]);
-        if canon(&live) != canon(&want) {
-            tool_error(&format!("schemas/c20.json profile {} does not mirror the live registry.\nlive   = {}\nmirror = {}", $name, canon(&live), canon(&want)));
+        // structure (kinds, fields, types, implements, members) must agree: otherwise the harness itself is wrong.
+        // Hints are NOT part of this: the registry is built by the code under test (derive macros, MergedObject);
+        // a hint the registry holds differently is reported and shows up as a verdict on the observed policies.
+        if canon(&strip_hints(&live)) != canon(&strip_hints(&want)) {
+            tool_error(&format!("schemas/c20.json profile {} does not mirror the structure of the live registry.\nlive   = {}\nmirror = {}", $name, canon(&live), canon(&want)));
         }
+        hint_diffs(&live, &want, $name, &mut hint_notes);
         execs.insert($name.to_string(), Box::new(move |rq: Request| futures_executor::block_on(s.execute(rq))));
     }}; }
     reg!("P1", p1); reg!("P2", p2); reg!("P3", p3); reg!("L", l);
@@ -229,5 +282,5 @@ fn main() {
         n += 1;
     }
     out.finish();
-    println!("{{\"cases\": {n}}}");
+    println!("{}", json!({"cases": n, "hint_notes": hint_notes}));
 }
